@@ -295,6 +295,29 @@ PROPS = {
                                      "git itself (commits, push rejection of non-fast-forward updates)"],
         "assumptions": ["handles of one case are used one call at a time (concurrent use of the object store is C09); cleanup runs are excluded here (C10); crashes are C11"],
     },
+    "C09": {
+        "module": "TcVerif.Props.C09",
+        "theorems": ["Tc.C09_acked_stays_on_chain", "Tc.C09_served_only_chain", "Tc.C09_chain_wellformed", "Tc.C09_one_child",
+                     "Tc.C09_trace_reachable", "Tc.Cloud.check_sound", "Tc.Cloud.inv_step"],
+        "leanchecker_modules": ["TcVerif.Proofs.CloudChain", "TcVerif.Proofs.CloudCheck"],
+        "runs": [
+            {"family": "cloudconc", "flags": [], "quick": {"cases": 150, "max_len": 80}, "thorough": {"cases": 6000, "max_len": 120}},
+        ],
+        "judge_preds": ["acked", "onechild", "served", "noerr"],
+        "nontrivial": lambda imp, ops: any("cas latest" in l and l.rstrip().endswith("false") for l in ops) or any("(gone)" in l for l in ops)
+                                        or sum(1 for l in ops if "cas latest" in l) >= 3,
+        "rule": "2-4 real CloudServer clients on one in-memory object store (hook); a random schedule decides whose next single store request runs (every get / put / "
+                "del / compare-and-swap / list start / listed name is one step); clients start add_version (parent = the newest acknowledged version mostly, also stale, nil, "
+                "never-seen ids), get_child_version, add_snapshot, get_snapshot at random moments and all run to completion at the end; the request log is checked event by "
+                "event by Tc.Cloud.check (a Lean function proved sound w.r.t. the machine's Step relation), every returned value against the machine's ghost acked / served, "
+                "and the final store against the machine's; the Lean judge recomputes the final chain from the stored object names and checks acknowledged and served versions "
+                "against it; non-trivial = a lost compare-and-swap race, a listed object that vanished, or at least three swaps in the case; distinct by SHA-1",
+        "trusted_base": TB_COMMON + ["the in-memory object store hook (MemService): one request at a time, compare-and-swap atomic, a listing reports a subset of the names present "
+                                     "when it started — what docs/src/object-store.md asks of a real store",
+                                     "sealing / unsealing of payloads is exercised, covered by C13"],
+        "assumptions": ["clients use as parents only nil, ids they were given by the server, or ids the store has never seen (a client cannot guess an unacknowledged id)",
+                        "no cleanup runs here (C10) and no faults (C11)"],
+    },
     "C11": {
         "module": "TcVerif.Props.C11",
         "theorems": ["Tc.C11_interrupted_add_all_or_nothing", "Tc.C11_interrupted_add_respects_parent", "Tc.C11_event_chainOk",
